@@ -163,6 +163,9 @@ for _p in ('C05', 'C06', 'C17'):
 PROPS['C05']['extra_theorems'] = {'GodiProofs.Props.C05b': ['Godi.Props.C05b.' + n for n in (
     'build_graph_is_declared_relation', 'build_circular_iff', 'accepted_registry_is_ranked', 'resolution_terminates',
     'group_resolution_terminates', 'construction_terminates', 'successful_build_is_accepted', 'cyclic_registry_is_not_settled')]}
+# container clause of C06: the sorted order, translated to registrations, is an order the creation loop succeeds with
+PROPS['C06']['extra_theorems'] = {'GodiProofs.Props.C06b': ['Godi.Props.C06b.' + n for n in (
+    'sorted_order_is_a_creation_order', 'build_succeeds_with_the_order_the_sort_returns')]}
 for _p in ('C19', 'C06'):
     PROPS[_p]['streams'] = PROPS[_p]['streams'] + [GRAPH_WITNESS_STREAM]
 # the concurrent clauses of the container properties: the schedule-forced stream (M6 replays the same schedule)
